@@ -11,7 +11,7 @@ Lemma IS_atr g a t pub L lv atr atr' : IS g (mk_a a t pub L lv atr) -> IS g (mk_
 Proof. intros [h1 h2 h3 h4 h5 h6 h7 h8 h9]. constructor; auto. Qed.
 
 Section WithNodes.
-Variable nodes : list (nat * nat).
+Variable nodes : cfg0.
 Local Notation SAFE := (SAFE nodes).
 
 (** level-0 link CAS of insert_at_position: the linearization point of a successful insert *)
@@ -67,6 +67,8 @@ Proof.
     + intros Hw. cbn [lv' snd] in Hw. congruence.
   - intros Hi2. apply (IL2_lp nodes g g' a t pub' L' lv' (b_wl a) tr KCas (o_next pred 0) true (SInsert (key_of new)) Hi2 He).
     + rewrite Hv. exact Hst.
+    + reflexivity.
+    + reflexivity.
     + intros n Hn. unfold g'. destruct (Nat.eq_dec n pred) as [->|Np]; [now rewrite setnx_same, E|now rewrite setnx_other0].
     + intros S HS.
       assert (Nin : ~ In new (aL (b_base a))) by (intros X; apply (s_Lpub _ _ Hs) in X; congruence).
@@ -105,8 +107,10 @@ Proof.
       eapply inv_step2; [| | |exact Hil].
       - cbn [b_base mk_a2 set_st2 fst]. apply (IS_view g g (b_base a) t _ (aatr (b_base a)) Hs eq_refl (s_HB _ _ Hs)). now apply lv_ok_set.
       - apply (EX_view g); auto using incl_refl; [|cbn; congruence]. apply x_ok_set; [exact Q2|discriminate].
-      - intros Hi2. apply IL2_keep with (g := g); auto. rewrite Hv. unfold stof. cbn [set_st2 set_watch set_st snd fst xwatch vst].
-        rewrite Hwt. fold c. now rewrite Ec. }
+      - intros Hi2. apply IL2_keep with (g := g); auto.
+        + rewrite Hv. unfold stof. cbn [set_st2 set_watch set_st snd fst xwatch vst]. rewrite Hwt. fold c. now rewrite Ec.
+        + rewrite Hv. cbn [set_st2 set_st fst vst]. now rewrite (tgof_open _ _ Hst).
+        + rewrite Hv. cbn [set_st2 set_st fst vst]. now rewrite (pinv_of_open _ _ Hst). }
   apply mp_eqb_eq in E. rewrite E.
   assert (Hd : nxt g del 0 = (fst p, false)) by (rewrite E; destruct p; cbn in *; congruence).
   assert (HinL : In del (aL (b_base a))) by (apply (s_inL _ _ Hs); [exact Hp|now rewrite Hd]).
@@ -190,6 +194,8 @@ Proof.
   - intros Hi2. apply IL2_keep with (g := g); auto.
     + rewrite Hv. unfold stof. rewrite V1, V2. destruct (xwatch (snd lv)) as [d|] eqn:Ew; [|reflexivity].
       destruct O2 as (X1 & _). destruct (X1 d Ew) as [Hd _]. now rewrite (Hcl d Hd).
+    + now rewrite Hv, V1.
+    + now rewrite Hv, V1.
     + intros S HS. eapply abs_unlink; eauto.
 Qed.
 
@@ -213,62 +219,105 @@ Proof.
   - apply (EX_view g); auto using incl_refl; [|cbn; congruence]. apply x_ok_set; [exact O2|discriminate].
 Qed.
 
-Lemma stof_none g lv : xwatch (snd lv) = None -> stof g lv = vst (fst lv).
+Lemma stof_none g lv : xwatch (snd lv) = None -> stof g lv = emap (vst (fst lv)).
 Proof. intros H. unfold stof. now rewrite H. Qed.
 
 Lemma views_set (a : aux2) g t lv s atr' (st : nat -> status SetSpec) :
-  view2 a t = lv -> (forall u, st u = stof g (view2 a u)) ->
+  view2 a t = lv -> (forall u, st u = stof g (view2 a u)) -> emap s = s ->
   forall u, upd st t s u = stof g (view2 (mk_a2 a t (apub (b_base a)) (aL (b_base a)) (set_st2 lv s None) atr' (b_wl a)) u).
 Proof.
-  intros Hv H u. destruct (Nat.eq_dec u t) as [->|Nu]; [rewrite view2_mk_same, upd_same; reflexivity|].
+  intros Hv H Hs u. destruct (Nat.eq_dec u t) as [->|Nu]; [rewrite view2_mk_same, upd_same; unfold stof; cbn; now rewrite Hs|].
   rewrite view2_mk_other by exact Nu. rewrite upd_other by exact Nu. apply H.
 Qed.
 
-Lemma noext_snoc_inv tr t c k : noext_tr tr -> cok c = true -> noext_tr (tr ++ [(t, EvCli "inv" [c; k])]).
+Lemma vtg_set (a : aux2) t lv s atr' u :
+  view2 a t = lv -> vtg (mk_a2 a t (apub (b_base a)) (aL (b_base a)) (set_st2 lv s None) atr' (b_wl a)) u = upd_tg (vtg a) t (tgof s) u.
 Proof.
-  intros H Hc u x y Hin. apply in_app_or in Hin. destruct Hin as [Hin|[E|[]]]; [eauto|]. inversion E; subst. exact Hc.
+  intros Hv. unfold vtg, upd_tg. destruct (Nat.eqb_spec u t) as [->|Nu]; [now rewrite view2_mk_same|now rewrite view2_mk_other].
 Qed.
-Lemma noext_snoc_other tr t name args : String.eqb name "inv" = false -> noext_tr tr -> noext_tr (tr ++ [(t, EvCli name args)]).
+
+Lemma pinv_one_inv u t c k : pinv u [(t, EvCli "inv" [c; k])] = if Nat.eqb t u then [(c, k)] else [].
+Proof. cbn. destruct (Nat.eqb t u); reflexivity. Qed.
+
+(** the invocation of an operation *)
+Lemma S_emit_inv_gen {R} t c key (k : prog R) lv :
+  op_code (enc_op c key 0 0) = (c, key) -> (c_noex nodes = true -> cok c = true) -> vst (fst lv) = @Idle SetSpec -> xwatch (snd lv) = None ->
+  SAFE t k (set_st2 lv (@Pending SetSpec (enc_op c key 0 0)) None) -> SAFE t (Emit (ev_inv c key) k) lv.
 Proof.
-  intros Hn H u x y Hin. apply in_app_or in Hin. destruct Hin as [Hin|[E|[]]]; [eauto|]. inversion E; subst. discriminate.
+  intros Hc Hnx Hst Hw Hk. set (o0 := enc_op c key 0 0) in *. apply S_emit_gen with (lv1 := set_st2 lv (@Pending SetSpec o0) None); [|exact Hk].
+  intros g a tr (Hs & He & Hil) Hv. exists (aatr (b_base a) ++ [@AInv SetSpec t o0]).
+  destruct (IS_EX_set g a t lv (@Pending SetSpec o0) (aatr (b_base a) ++ [@AInv SetSpec t o0]) Hs He Hv) as [A B].
+  split; [exact A|]. split; [exact B|]. destruct Hil as [Hil|Hex]; [left|right; now apply exhausted_app].
+  destruct Hil as [(S & st & H1 & H2 & H3) H4 H5 H6]. constructor; cbn [b_base mk_a2 aatr aL mk_a].
+  - exists S, (upd st t (@Pending SetSpec o0)). split; [|split; [|exact H3]].
+    + rewrite (MI.lp_run_snoc _ _ _ H1). cbn [lp_step]. rewrite H2, Hv, (stof_none g lv Hw), Hst. reflexivity.
+    + now apply views_set.
+  - unfold ev_inv. cbn [Conc.tag map]. rewrite erase_app, H4. cbn [erase]. rewrite <- app_assoc. f_equal.
+    rewrite history_h_snoc by (intros X; discriminate). cbn [hev1h String.eqb Ascii.eqb Bool.eqb]. f_equal.
+    + apply history_h_ext. intros u. rewrite (vtg_set a t lv _ _ u Hv). unfold upd_tg, vtg. destruct (Nat.eqb_spec u t) as [->|]; [|reflexivity].
+      now rewrite Hv, Hst.
+    + unfold vtg. rewrite view2_mk_same. reflexivity.
+  - intros u. unfold ev_inv. cbn [Conc.tag map]. rewrite pinv_snoc. cbn [is_res_of String.eqb Ascii.eqb Bool.eqb andb]. rewrite andb_false_r.
+    rewrite pinv_one_inv, H5. destruct (Nat.eqb_spec t u) as [<-|Nu].
+    + rewrite view2_mk_same, Hv, Hst. cbn [pinv_of set_st2 set_st fst vst app]. now rewrite Hc.
+    + rewrite view2_mk_other by congruence. apply app_nil_r.
+  - intros Hx u xy. unfold ev_inv. cbn [Conc.tag map]. rewrite pinv_snoc. cbn [is_res_of String.eqb Ascii.eqb Bool.eqb andb]. rewrite andb_false_r.
+    rewrite pinv_one_inv. intros Hin. apply in_app_or in Hin. destruct Hin as [Hin|Hin]; [eapply H6; eauto|].
+    destruct (Nat.eqb t u); [destruct Hin as [<-|[]]; cbn [fst]; auto|destruct Hin].
 Qed.
 
 Lemma S_emit_inv {R} t c key (k : prog R) lv :
   cok c = true -> vst (fst lv) = @Idle SetSpec -> xwatch (snd lv) = None ->
   SAFE t k (set_st2 lv (@Pending SetSpec (sp_op c key)) None) -> SAFE t (Emit (ev_inv c key) k) lv.
 Proof.
-  intros Hc Hst Hw Hk. apply S_emit_gen with (lv1 := set_st2 lv (@Pending SetSpec (sp_op c key)) None); [|exact Hk].
-  intros g a tr (Hs & He & Hil) Hv. exists (aatr (b_base a) ++ [@AInv SetSpec t (sp_op c key)]).
-  destruct (IS_EX_set g a t lv (@Pending SetSpec (sp_op c key)) (aatr (b_base a) ++ [@AInv SetSpec t (sp_op c key)]) Hs He Hv) as [A B].
-  split; [exact A|]. split; [exact B|]. destruct Hil as [Hil|Hex]; [left|right; now apply exhausted_app].
-  destruct Hil as [(S & st & H1 & H2 & H3) H4 H5]. constructor; cbn [b_base mk_a2 aatr aL mk_a].
-  - exists S, (upd st t (@Pending SetSpec (sp_op c key))). split; [|split; [|exact H3]].
-    + rewrite (MI.lp_run_snoc _ _ _ H1). cbn [lp_step]. rewrite H2, Hv, (stof_none g lv Hw), Hst. reflexivity.
-    + now apply views_set.
-  - unfold ev_inv. cbn [Conc.tag map]. rewrite client_history_snoc by exact H5. rewrite erase_app. cbn [erase hev1 String.eqb Ascii.eqb Bool.eqb].
-    now rewrite H4, enc_op_cok.
-  - unfold ev_inv. cbn [Conc.tag map]. now apply noext_snoc_inv.
+  intros Hc Hst Hw Hk. rewrite <- (enc_op_cok c key 0 0 Hc) in Hk. apply S_emit_inv_gen; auto.
+  rewrite (enc_op_cok c key 0 0 Hc). unfold cok in Hc. unfold sp_op.
+  destruct (Z.eqb_spec c 1) as [->|]; [reflexivity|]. destruct (Z.eqb_spec c 6) as [->|]; [reflexivity|].
+  destruct (Z.eqb_spec c 10) as [->|]; [reflexivity|discriminate].
 Qed.
 
 (** the response of an operation: the status says which result was linearized *)
-Lemma S_emit_res {R} t o ra b (k : prog R) lv :
-  vst (fst lv) = @Linearized SetSpec o (RBool (ra =? 1)) -> xwatch (snd lv) = None ->
+Lemma S_emit_res_gen {R} t o r o' r' ra b (k : prog R) lv :
+  vst (fst lv) = @Linearized SetSpec o r -> xwatch (snd lv) = None -> emap (@Linearized SetSpec o r) = @Linearized SetSpec o' r' ->
+  enc_res (fst (op_code o)) ra = r' ->
+  enc_op (fst (op_code o)) (snd (op_code o)) ra b =
+    enc_op (fst (op_code o)) (snd (op_code o)) (fst (tgof (@Linearized SetSpec o r))) (snd (tgof (@Linearized SetSpec o r))) ->
   SAFE t k (set_st2 lv (@Idle SetSpec) None) -> SAFE t (Emit (ev_res ra b) k) lv.
 Proof.
-  intros Hst Hw Hk. apply S_emit_gen with (lv1 := set_st2 lv (@Idle SetSpec) None); [|exact Hk].
-  intros g a tr (Hs & He & Hil) Hv. exists (aatr (b_base a) ++ [@ARes SetSpec t (RBool (ra =? 1))]).
-  destruct (IS_EX_set g a t lv (@Idle SetSpec) (aatr (b_base a) ++ [@ARes SetSpec t (RBool (ra =? 1))]) Hs He Hv) as [A B].
+  intros Hst Hw Hem Hres Hop Hk. apply S_emit_gen with (lv1 := set_st2 lv (@Idle SetSpec) None); [|exact Hk].
+  intros g a tr (Hs & He & Hil) Hv. exists (aatr (b_base a) ++ [@ARes SetSpec t r']).
+  destruct (IS_EX_set g a t lv (@Idle SetSpec) (aatr (b_base a) ++ [@ARes SetSpec t r']) Hs He Hv) as [A B].
   split; [exact A|]. split; [exact B|]. destruct Hil as [Hil|Hex]; [left|right; now apply exhausted_app].
-  destruct Hil as [(S & st & H1 & H2 & H3) H4 H5].
-  assert (Est : st t = @Linearized SetSpec o (RBool (ra =? 1))) by (rewrite H2, Hv, (stof_none g lv Hw); exact Hst).
+  destruct Hil as [(S & st & H1 & H2 & H3) H4 H5 H6].
+  assert (Est : st t = @Linearized SetSpec o' r') by (rewrite H2, Hv, (stof_none g lv Hw), Hst; exact Hem).
+  assert (Hpi : pinv t tr = [op_code o]) by (rewrite H5, Hv, Hst; reflexivity).
+  set (e := (t, EvCli "res" [ra; b])).
+  assert (Hrk : resok (vtg a) tr e).
+  { cbn [resok e]. intros _. rewrite Hpi. constructor; [|constructor]. unfold vtg. rewrite Hv, Hst. exact Hop. }
   constructor; cbn [b_base mk_a2 aatr aL mk_a].
   - exists S, (upd st t (@Idle SetSpec)). split; [|split; [|exact H3]].
     + rewrite (MI.lp_run_snoc _ _ _ H1). cbn [lp_step]. rewrite Est, res_eqb_refl. reflexivity.
     + now apply views_set.
-  - unfold ev_res. cbn [Conc.tag map]. rewrite client_history_snoc by exact H5. rewrite erase_app. cbn [erase hev1 String.eqb Ascii.eqb Bool.eqb].
-    rewrite H4. f_equal. f_equal. f_equal. unfold enc_res.
-    now rewrite (pend_after_ok tr (fun _ => 0) t H5 eq_refl).
-  - unfold ev_res. cbn [Conc.tag map]. now apply noext_snoc_other.
+  - unfold ev_res. cbn [Conc.tag map]. fold e. rewrite erase_app, H4. cbn [erase]. rewrite <- app_assoc. f_equal.
+    assert (Hnp : pinv t (tr ++ [e]) = []) by (rewrite pinv_snoc; cbn [is_res_of e]; rewrite Nat.eqb_refl; reflexivity).
+    rewrite (history_h_ext _ _ (fun u => vtg_set a t lv (@Idle SetSpec) _ u Hv)).
+    rewrite history_h_nopend by exact Hnp. rewrite history_h_snoc by exact Hrk. f_equal.
+    cbn [hev1h e String.eqb Ascii.eqb Bool.eqb]. assert (Hpi2 : pinv t tr = [(fst (op_code o), snd (op_code o))]) by (rewrite Hpi; destruct (op_code o); reflexivity).
+    rewrite (pend_after_pinv t _ _ tr (fun _ => 0) Hpi2). now rewrite Hres.
+  - intros u. unfold ev_res. cbn [Conc.tag map]. fold e. rewrite pinv_snoc. cbn [is_res_of e pinv String.eqb Ascii.eqb Bool.eqb andb]. rewrite andb_true_r, app_nil_r.
+    destruct (Nat.eqb_spec t u) as [<-|Nu]; [now rewrite view2_mk_same|]. rewrite view2_mk_other by congruence. apply H5.
+  - intros Hx u xy. unfold ev_res. cbn [Conc.tag map]. fold e. rewrite pinv_snoc. cbn [is_res_of e pinv String.eqb Ascii.eqb Bool.eqb andb]. rewrite andb_true_r, app_nil_r.
+    destruct (Nat.eqb t u); [intros []|now apply H6].
+Qed.
+
+Lemma S_emit_res {R} t o ra b (k : prog R) lv :
+  cok (fst (op_code o)) = true -> vst (fst lv) = @Linearized SetSpec o (RBool (ra =? 1)) -> xwatch (snd lv) = None ->
+  SAFE t k (set_st2 lv (@Idle SetSpec) None) -> SAFE t (Emit (ev_res ra b) k) lv.
+Proof.
+  intros Hc Hst Hw Hk. apply S_emit_res_gen with (o := o) (r := RBool (ra =? 1)) (o' := o) (r' := RBool (ra =? 1)); auto.
+  - destruct o; reflexivity.
+  - now apply enc_res_cok.
+  - now rewrite !(enc_op_cok _ _ _ _ Hc).
 Qed.
 
 Lemma S_out_of_fuel {R} t s (k : TL -> prog R) lv :
@@ -312,7 +361,7 @@ Proof.
       * intros n0 h0 E. inversion E; subst n0 h0. repeat split; auto; [now apply node_id_owner| |right; eauto].
         cbn [hgt_of g']. unfold upd1. now rewrite Nat.eqb_refl.
     + intros Hw. apply (e_wl _ _ He). cbn [lv' snd xwatch] in Hw. rewrite <- Hv in Hw. exact Hw.
-  - intros Hil. apply IL2_keep with (g := g); auto. rewrite Hv. reflexivity.
+  - intros Hil. apply IL2_keep with (g := g); auto; rewrite Hv; reflexivity.
 Qed.
 
 End WithNodes.
